@@ -1,2 +1,268 @@
-From Coq Require Import List ZArith Bool.
-From Verif Require Import Lib.UrlTree C13.Model C13.Proofs.
+(* C13 — Endpoint policies apply only to requests matching their declared
+   endpoint.  Final statements only; proofs are in Proofs.v and
+   Lib/UrlTreeProofs.v.  The model is the code after the repairs
+   patches/C13/fix-F-C13{,b,c,d}.patch.
+
+   Vocabulary: [build ds] = BuildEndpointPolicyTree (None = the loader rejects
+   the declarations); [endpoint_remedies pt m url] / [endpoint_diagnoses] = the
+   endpoint-scoped plugins the dispatcher selects for a request; [plookup] =
+   EndpointPolicyTree.Lookup; [pat d] = the declared pattern of [d];
+   [matches] = the specification matcher of Lib/UrlTree, written from the
+   property text; [kind_consistentb ds] = no two declarations reach the same
+   trie node once as a host label and once as a path segment (known finding
+   F-C13e, e.g. "a.b" next to "a/b").
+
+   Completeness is deliberately NOT claimed: the lookup does not backtrack
+   (with h/{x}/b and h/a/c declared, h/a/b selects nothing).  What is claimed
+   in that direction is [C13_most_specific] (c): a wildcard-free pattern that
+   no literal sibling shadows is selected. *)
+From Coq Require Import List ZArith NArith Bool Permutation.
+From Verif Require Import Lib.UrlTree Lib.UrlTreeProofs C13.Model C13.Proofs.
+Import ListNotations.
+Open Scope Z_scope.
+
+(* ------------------------------------------------------------------ *)
+(* Soundness *)
+
+Definition C13_sound_statement (ds : list decl) : Prop :=
+  forall pt m url, build ds = Some pt ->
+    (forall r, In r (endpoint_remedies pt m url) ->
+       exists d, In d ds /\ d_method d = m /\ In r (d_rem d) /\
+                 r_enabled r = true /\ matches (pat d) (split_url url) = true) /\
+    (forall g, In g (endpoint_diagnoses pt m url) ->
+       exists d, In d ds /\ d_method d = m /\ In g (d_diag d) /\
+                 g_enabled g = true /\ matches (pat d) (split_url url) = true).
+
+(* for all declaration lists, methods and URLs *)
+Definition C13_sound_full : Prop := forall ds, C13_sound_statement ds.
+
+(* A remedy / diagnosis selected for (m, url) was declared, enabled, for
+   method m on a pattern that matches url — for every list of declarations
+   without a host-label/path-segment clash, every order, every request. *)
+Theorem C13_sound_holds_outside_hostpath_clash : forall ds,
+  kind_consistentb ds = true -> C13_sound_statement ds.
+Proof.
+  intros ds HK pt m url HB.
+  apply kind_consistentb_spec in HK. pose proof (build_inv ds pt HB HK) as HI.
+  split; intros x Hx.
+  - exact (sound_remedies ds pt m url x HI Hx).
+  - exact (sound_diagnoses ds pt m url x HI Hx).
+Qed.
+Print Assumptions C13_sound_holds_outside_hostpath_clash.
+
+(* the same statement under the name used in the design *)
+Corollary C13_sound : forall ds,
+  kind_consistentb ds = true -> C13_sound_statement ds.
+Proof. exact C13_sound_holds_outside_hostpath_clash. Qed.
+Print Assumptions C13_sound.
+
+(* the dispatcher adds exactly the enabled global plugins to them *)
+Theorem C13_dispatch : forall pt grem m url s n,
+  In (s, n) (get_remedies pt grem m url) ->
+  (s = true /\ exists r, In r (endpoint_remedies pt m url) /\ r_name r = n) \/
+  (s = false /\ exists r, In r grem /\ r_enabled r = true /\ r_name r = n).
+Proof.
+  intros pt grem m url s n H. unfold get_remedies in H.
+  apply in_app_or in H. destruct H as [H|H]; apply in_map_iff in H;
+    destruct H as (r & E & Hr); inversion E; subst.
+  - left. eauto.
+  - right. apply filter_In in Hr. destruct Hr. eauto.
+Qed.
+Print Assumptions C13_dispatch.
+
+Definition s_GET : str := [71; 69; 84].
+Definition s_POST : str := [80; 79; 83; 84].
+Definition mk (m u : str) (name ty : Z) : decl :=
+  {| d_method := m; d_url := u;
+     d_rem := [{| r_name := name; r_type := ty; r_enabled := true |}];
+     d_diag := [{| g_name := name; g_enabled := true |}] |}.
+(* "a.b" and "a/b" *)
+Definition u_a_dot_b : str := [97; 46; 98].
+Definition u_a_slash_b : str := [97; 47; 98].
+Definition clash : list decl := [mk s_GET u_a_dot_b 1 1; mk s_GET u_a_slash_b 2 2].
+
+(* F-C13e: with "a.b" declared before "a/b" the request GET a.b is given the
+   remedy declared for a/b *)
+Theorem C13_sound_full_refuted : ~ C13_sound_full.
+Proof.
+  intro H.
+  destruct (build clash) as [pt|] eqn:HB; [|vm_compute in HB; discriminate].
+  destruct (H clash pt s_GET u_a_dot_b HB) as [Hr _].
+  assert (Hin : In {| r_name := 2; r_type := 2; r_enabled := true |}
+                   (endpoint_remedies pt s_GET u_a_dot_b)).
+  { vm_compute in HB. inversion HB; subst pt. vm_compute. right. left. reflexivity. }
+  destruct (Hr _ Hin) as (d & Hd & _ & Hrem & _ & Hm).
+  destruct Hd as [<-|[<-|[]]].
+  - vm_compute in Hrem. destruct Hrem as [E|[]]. discriminate E.
+  - vm_compute in Hm. discriminate Hm.
+Qed.
+Print Assumptions C13_sound_full_refuted.
+
+(* ------------------------------------------------------------------ *)
+(* Most specific pattern, normalised URL, path parameters *)
+
+Theorem C13_most_specific : forall ds pt url,
+  build ds = Some pt -> kind_consistentb ds = true ->
+  let r := plookup pt url in
+  (* (a) a value is reported only for the node of a declared pattern that
+         matches the request; the normalised URL is that pattern in canonical
+         spelling; the path parameters are the request's parts at its
+         parameter positions (requests without {..}-shaped parts) *)
+  (forall id, l_val r = Some id ->
+     exists d, In d ds /\ dkey d = l_key r /\
+       matches (pat d) (split_url url) = true /\
+       l_norm r = render_pattern (pat d) /\
+       (Forall (fun u => is_brace (snd u) = false) (split_url url) ->
+        l_params r = params_at (pat d) (split_url url) [])) /\
+  (* (b) literal over parameter: where the selected node's path has a
+         parameter step below node X', no declared pattern with the same
+         earlier steps continues with the literal request part of that kind *)
+  (l_match r = true ->
+   forall A X' k u, l_key r = A ++ KParam :: X' ->
+     nth_error (split_url url) (length X') = Some (k, u) ->
+     forall d' ps, In d' ds -> step_at [] (pat d') (KConst u :: X') <> Some (k, ps)) /\
+  (* (c) exact over wildcard: a wildcard-free declared pattern that matches
+         and is not shadowed by a literal sibling is the one selected *)
+  (forall d, In d ds -> wild_freeb (pat d) = true ->
+     matches (pat d) (split_url url) = true ->
+     unshadowedb ds [] (pat d) (split_url url) = true ->
+     l_key r = dkey d /\ l_val r <> None).
+Proof.
+  intros ds pt url HB HK r.
+  apply kind_consistentb_spec in HK. pose proof (build_inv ds pt HB HK) as HI.
+  split; [|split].
+  - intros id HV. exact (selected_declared ds pt url id HI HV).
+  - intros HM A X' k u HKey Hn d' ps Hd'.
+    exact (literal_over_parameter ds pt url A X' k u HI HM HKey Hn d' ps Hd').
+  - intros d Hd HW HMt HU. exact (exact_wins_val ds pt url d HI Hd HW HMt HU).
+Qed.
+Print Assumptions C13_most_specific.
+
+(* ------------------------------------------------------------------ *)
+(* Order independence *)
+
+Definition C13_order_statement (ds ds' : list decl) (pt pt' : ptree) : Prop :=
+  forall m url,
+    l_match (plookup pt url) = l_match (plookup pt' url) /\
+    l_key (plookup pt url) = l_key (plookup pt' url) /\
+    l_norm (plookup pt url) = l_norm (plookup pt' url) /\
+    l_params (plookup pt url) = l_params (plookup pt' url) /\
+    Permutation (endpoint_remedies pt m url) (endpoint_remedies pt' m url) /\
+    Permutation (endpoint_diagnoses pt m url) (endpoint_diagnoses pt' m url) /\
+    (forall gdiag, should_diagnose pt gdiag m url = should_diagnose pt' gdiag m url).
+
+(* every order of the same declarations is accepted or rejected alike and,
+   when accepted, selects the same *)
+Definition C13_order_independent_full : Prop :=
+  forall ds ds', Permutation ds ds' ->
+    match build ds, build ds' with
+    | Some pt, Some pt' => C13_order_statement ds ds' pt pt'
+    | None, None => True
+    | _, _ => False
+    end.
+
+(* Permuting the declarations changes nothing for any request: same node,
+   normalised URL and path parameters, the same remedies and diagnoses (as
+   multisets: declarations of one method and URL are merged in declaration
+   order) — whenever both orders are accepted by the loader and there is no
+   host-label/path-segment clash. *)
+Theorem C13_order_independent_holds_outside_clash_and_acceptance :
+  forall ds ds' pt pt',
+    Permutation ds ds' -> build ds = Some pt -> build ds' = Some pt' ->
+    kind_consistentb ds = true ->
+    C13_order_statement ds ds' pt pt'.
+Proof.
+  intros ds ds' pt pt' HP HB HB' HK m url.
+  apply kind_consistentb_spec in HK.
+  pose proof (build_inv ds pt HB HK) as HI.
+  pose proof (build_inv ds' pt' HB' (kind_consistent_perm _ _ HP HK)) as HI'.
+  destruct (order_independent_core ds ds' pt pt' m url HI HI' HP)
+    as ((H1 & H2 & H3 & H4) & HR & HD).
+  repeat split; auto.
+  intro gdiag. unfold should_diagnose. rewrite (perm_is_nil _ _ _ HD). reflexivity.
+Qed.
+Print Assumptions C13_order_independent_holds_outside_clash_and_acceptance.
+
+(* the same statement under the name used in the design *)
+Corollary C13_order_independent : forall ds ds' pt pt',
+  Permutation ds ds' -> build ds = Some pt -> build ds' = Some pt' ->
+  kind_consistentb ds = true ->
+  C13_order_statement ds ds' pt pt'.
+Proof. exact C13_order_independent_holds_outside_clash_and_acceptance. Qed.
+Print Assumptions C13_order_independent.
+
+(* with at most one declaration per method and URL the selected lists are
+   equal, not only permutations *)
+Theorem C13_order_independent_exact : forall ds ds' pt pt' m url,
+  Permutation ds ds' -> build ds = Some pt -> build ds' = Some pt' ->
+  kind_consistentb ds = true -> distinct_endpointsb ds = true ->
+  endpoint_remedies pt m url = endpoint_remedies pt' m url /\
+  endpoint_diagnoses pt m url = endpoint_diagnoses pt' m url.
+Proof.
+  intros ds ds' pt pt' m url HP HB HB' HK HD.
+  apply kind_consistentb_spec in HK.
+  pose proof (build_inv ds pt HB HK) as HI.
+  pose proof (build_inv ds' pt' HB' (kind_consistent_perm _ _ HP HK)) as HI'.
+  exact (order_independent_exact ds ds' pt pt' m url HI HI' HP HD).
+Qed.
+Print Assumptions C13_order_independent_exact.
+
+(* "h/*" and "h/a", both GET with a remedy of the same type *)
+Definition u_h_star : str := [104; 47; 42].
+Definition u_h_a : str := [104; 47; 97].
+Definition u_h_b : str := [104; 47; 98].
+Definition overlap : list decl := [mk s_GET u_h_star 1 1; mk s_GET u_h_a 2 1].
+
+(* F-C13f: checkForDuplicates rejects [h/*; h/a] (the second URL looks up the
+   wildcard's remedies) but accepts [h/a; h/*]; F-C13e: see [clash] *)
+Theorem C13_order_independent_full_refuted : ~ C13_order_independent_full.
+Proof.
+  intro H. specialize (H overlap (rev overlap)).
+  assert (HP : Permutation overlap (rev overlap)) by apply Permutation_rev.
+  specialize (H HP). vm_compute in H. exact H.
+Qed.
+Print Assumptions C13_order_independent_full_refuted.
+
+(* accepted in both orders, yet different: the host/path clash *)
+Theorem C13_order_independent_clash_refuted :
+  ~ (forall ds ds' pt pt', Permutation ds ds' ->
+       build ds = Some pt -> build ds' = Some pt' ->
+       C13_order_statement ds ds' pt pt').
+Proof.
+  intro H.
+  destruct (build clash) as [pt|] eqn:HB; [|vm_compute in HB; discriminate].
+  destruct (build (rev clash)) as [pt'|] eqn:HB'; [|vm_compute in HB'; discriminate].
+  destruct (H clash (rev clash) pt pt' (Permutation_rev clash) HB HB' s_GET u_a_dot_b)
+    as (HM & _).
+  vm_compute in HB. inversion HB; subst pt.
+  vm_compute in HB'. inversion HB'; subst pt'.
+  vm_compute in HM. discriminate HM.
+Qed.
+Print Assumptions C13_order_independent_clash_refuted.
+
+(* ------------------------------------------------------------------ *)
+(* Non-vacuity: overlapping literal / parameter / wildcard declarations of
+   two methods, accepted, consistent; the F-C13 scenario no longer leaks *)
+Definition u_h_p_b : str := [104; 47; 123; 112; 125; 47; 98].   (* h/{p}/b *)
+Definition u_h_x_b : str := [104; 47; 120; 47; 98].             (* h/x/b *)
+Definition u_h_a_b : str := [104; 47; 97; 47; 98].              (* h/a/b *)
+Definition sample : list decl :=
+  [mk s_GET u_h_star 1 1; mk s_POST u_h_a 2 2; mk s_GET u_h_p_b 3 3;
+   mk s_POST u_h_a 4 4].
+
+Example C13_sample_selection :
+  kind_consistentb sample = true /\
+  match build sample, build (rev sample) with
+  | Some pt, Some pt' =>
+      map r_name (endpoint_remedies pt s_POST u_h_b) = [] /\      (* not r2 *)
+      map r_name (endpoint_remedies pt s_GET u_h_b) = [1] /\
+      map r_name (endpoint_remedies pt s_POST u_h_a) = [2; 4] /\  (* merged *)
+      map r_name (endpoint_remedies pt' s_POST u_h_a) = [4; 2] /\
+      map r_name (endpoint_remedies pt s_GET u_h_x_b) = [3] /\
+      l_norm (plookup pt u_h_x_b) = u_h_p_b /\
+      l_params (plookup pt u_h_x_b) = [([112], [120])] /\
+      (* no backtracking: h/a/b walks into h/a, then falls back to h/* *)
+      l_norm (plookup pt u_h_a_b) = u_h_star
+  | _, _ => False
+  end.
+Proof. vm_compute. repeat split; reflexivity. Qed.
